@@ -150,7 +150,10 @@ def run(prog: Program, ctx: Ctx) -> None:  # noqa: PLR0912,PLR0915
     ctx.rule("Rd", "completeness against CPython's binder: whenever some call bound by the old signature fails to bind to the new one "
                    "(inspect.Signature.bind over all call shapes up to arity+1 with every keyword subset), at least one yield is enabled")
     olds = _signatures(["a", "b"], [None, "1"], 2 if thorough else 1)
-    news1 = _signatures(["a", "b", "c"] if thorough else ["a", "c"], [None, "1", "2"], 2 if thorough else 1)
+    # quick: one old parameter `a` against every new signature of up to two parameters over {a, c} (insertions before/after included)
+    news1 = _signatures(["a", "b", "c"] if thorough else ["a", "c"], [None, "1", "2"] if thorough else [None, "1"], 2)
+    if not thorough:
+        news1 += [s for s in _signatures(["a"], ["2"], 1) if s]
     if not thorough:
         # quick tier: all one-parameter transitions plus a structured sample of two-parameter ones (reordering, add, remove)
         olds2 = [s for s in _signatures(["a", "b"], [None, "1"], 2) if len(s) == 2 and all(k in ("positional_only", "positional_or_keyword", "keyword_only") for _n, k, _d in s)]
